@@ -141,9 +141,32 @@ func c14Run(u *vfUnit) {
 		}
 		perHandle := make([][]vfPkt, nh)
 		const chunk = 48
+		// request server, every fourth burst: one write per handle fails in the handler (disk full, quota).
+		// That write is answered with an error; everything else about the burst stays as stated: the
+		// other requests succeed and Close runs after all of them, exactly once.
+		failW := map[int]int{}
+		failID := map[uint32]bool{}
+		if kind == vfRS && bi%4 == 1 && k > 1 {
+			failOff := map[string]int64{}
+			for h := 0; h < nh; h++ {
+				failW[h] = r.Intn(k)
+				failOff[paths[h]] = int64(failW[h] * chunk)
+			}
+			store.FailAt = func(path string, off int64, n int, write bool) error {
+				if o, ok := failOff[path]; ok && write && off == o {
+					return fmt.Errorf("no space left for %s@%d", path, off)
+				}
+				return nil
+			}
+			label += "/one-failing-write-per-handle"
+			u.Count("bursts_with_failing_writes", 1)
+		}
 		for h := 0; h < nh; h++ {
 			for w := 0; w < k; w++ {
 				id++
+				if fw, ok := failW[h]; ok && fw == w {
+					failID[id] = true
+				}
 				perHandle[h] = append(perHandle[h], vfPkt{Type: rfWrite, ID: id, Handle: handles[h], Off: uint64(w * chunk), Data: vfPattern(uint64(h*1000+w+1), int64(w*chunk), chunk)})
 				// (without OpenFileWriter the request server turns a READ|WRITE open into a write-only handle)
 				if w%4 == 3 && (kind == vfOS || bi%2 == 0) {
@@ -235,6 +258,9 @@ func c14Run(u *vfUnit) {
 			switch req.Type {
 			case rfWrite, rfClose:
 				ok = p.Type == rfStatus && p.Code == rfOK
+				if failID[req.ID] {
+					ok = p.Type == rfStatus && p.Code != rfOK
+				}
 			case rfRead:
 				ok = p.Type == rfData || (p.Type == rfStatus && p.Code == rfEOF)
 			}
@@ -258,6 +284,12 @@ func c14Run(u *vfUnit) {
 			}
 			var want []byte
 			for w := 0; w < k; w++ {
+				if fw, ok := failW[h]; ok && fw == w {
+					if w < k-1 {
+						want = append(want, make([]byte, chunk)...) // the hole left by the failed write
+					}
+					continue
+				}
 				want = append(want, vfPattern(uint64(h*1000+w+1), int64(w*chunk), chunk)...)
 			}
 			if !bytes.Equal(got, want) {
